@@ -175,12 +175,12 @@ int _vnacal_new_solve_simple(vnacal_new_solve_state_t *vnssp,
 		goto out;
 	    }
 	    sum_dx_squared = 0.0;
-	    for (int i = 0; i < x_length; ++i) {
+	    for (int i = offset; i < offset + unknowns; ++i) {
 		double complex d = x_vector[i] - prev_x_vector[i];
 
 		sum_dx_squared += _vnacommon_cabs2(d);
 	    }
-	    if (sum_dx_squared / (double)x_length <= vnp->vn_et_tolerance *
+	    if (sum_dx_squared / (double)unknowns <= vnp->vn_et_tolerance *
 						     vnp->vn_et_tolerance) {
 		break;
 	    }
